@@ -31,6 +31,9 @@ import DiskfsModel.Proofs.IsoSuspCE
 import DiskfsModel.Proofs.IsoCompose
 import DiskfsModel.Proofs.IsoSL
 import DiskfsModel.Proofs.IsoPT
+import DiskfsModel.Proofs.IsoComposePT
+import DiskfsModel.Proofs.IsoRRRecord
+import DiskfsModel.Proofs.IsoSvd
 import DiskfsModel.Generated.Iso
 namespace Diskfs.Iso.C06
 
@@ -605,5 +608,129 @@ private theorem exPTwf : PtWF exPT := by
 /-- the hypotheses are satisfiable: /B/C (records 3, 5) is found at block 22, not the C below A -/
 example : ptLookup exPT [[66], [67]] = 22 :=
   pathtable_lookup_is_walk exPT exPTwf 3 [5] (by simp [IsChain, exPT, ptRec])
+
+/-- **layout_pathtable**: the path table `createPathTable` makes for EVERY laid-out workspace tree of
+    `workspace_roundtrip` (`WTree.ptRecs`: one record per directory with its identifier, its extent and
+    the number of its parent's record) is well formed for every table order that lists the
+    directories once, the root first and a directory after its parent (`PtOK`; the Go order — by
+    depth, then parents' order, then name — is one: `WTree.ptOrder`, tied by iso.compose), so for
+    every chain of directories from the root the lookup through the table returns the extent the
+    layout gave the last one — the same extent its directory record carries in the tree the reader
+    walks (`workspace_roundtrip` (1)): lookup through the path table = directory tree walk. -/
+theorem layout_pathtable (w : WTree) (order : Nat → List Nm) (fin : Nat → Nat → Nm) (bs : Nat) (o : Order)
+    (hok : w.OK o) (hr : w.Resolved order fin) (hpt : w.PtOK o.pt) :
+    PtWF (w.ptRecs fin (w.loc fin bs o) o.pt) ∧
+    ∀ b rest, IsChain (w.ptRecs fin (w.loc fin bs o) o.pt) 1 (b :: rest) →
+      ptLookup (w.ptRecs fin (w.loc fin bs o) o.pt)
+        ((b :: rest).map fun k => w.ident fin (dirOf o.pt k)) =
+        w.loc fin bs o (dirOf o.pt ((b :: rest).getLast (by simp))) := by
+  have hwf := ptRecs_wf w order fin (w.loc fin bs o) o.pt o hok hr hpt
+  refine ⟨hwf, ?_⟩
+  intro b rest hch
+  have hlen : (w.ptRecs fin (w.loc fin bs o) o.pt).length = o.pt.length := by simp [WTree.ptRecs]
+  have hmem : ∀ l : List Nat, ∀ a, IsChain (w.ptRecs fin (w.loc fin bs o) o.pt) a l → ∀ k ∈ l, 1 ≤ k ∧ k ≤ o.pt.length := by
+    intro l
+    induction l with
+    | nil => intro a _ k hk; cases hk
+    | cons x r ih =>
+      intro a h k hk
+      rcases List.mem_cons.1 hk with rfl | hk
+      · have := h.1; have := h.2.1; omega
+      · exact ih x h.2.2.2 k hk
+  have h := pathtable_lookup_is_walk _ hwf b rest hch
+  have hnames : ((b :: rest).map fun k => (ptRec (w.ptRecs fin (w.loc fin bs o) o.pt) k).name) =
+      (b :: rest).map fun k => w.ident fin (dirOf o.pt k) := by
+    apply List.map_congr_left
+    intro k hk
+    have := hmem _ 1 hch k hk
+    rw [ptRec_ptRecs w fin _ o.pt k this.1 this.2]
+  rw [hnames] at h
+  rw [h]
+  have hl := hmem _ 1 hch ((b :: rest).getLast (by simp)) (List.getLast_mem _)
+  rw [ptRec_ptRecs w fin _ o.pt _ hl.1 hl.2]
+
+/-- the table order of the concrete workspace above is `PtOK` -/
+example : ws.PtOK wsO.pt :=
+  { nodup := by decide, head := by decide
+    dirs := by intro d hd; simp only [wsO, List.mem_cons, List.not_mem_nil, or_false] at hd; rcases hd with rfl | rfl <;> decide
+    parent := by intro d hd h0; simp only [wsO, List.mem_cons, List.not_mem_nil, or_false] at hd; rcases hd with rfl | rfl <;> first | exact absurd rfl h0 | decide }
+
+/-! ## one Rock Ridge record end to end: NM + SL + continuation areas composed -/
+
+/-- **rr_record_roundtrip** (names and link targets are preserved exactly under Rock Ridge, at the level
+    of one directory record): the extensions in the order `GetFileExtensions` makes them — entries the
+    reader keeps by signature (PX, TF, ...), the NM entries of ANY non-empty name (any length), the SL
+    entries of ANY target whose components are at most 248 bytes — spread by `dirEntryExtensionsToBytes`
+    (as found or repaired rule) over the record's area and continuation areas of any block size, each
+    area returned by the device at the block its CE entry names (at most 64 areas): `parseDirEntry`'s
+    loop returns entries from which `GetFilename` gives EXACTLY the name and `ReadLink` exactly the target
+    the component records spell (the target itself when in normal form, `sl_normal_form`).  Composition
+    of `nm_roundtrip`, `sl_roundtrip`, `ce_roundtrip`. -/
+theorem rr_record_roundtrip (res uni : Bool) (bs : Nat) (rd : Nat → Nat → Nat → Bytes) (fuel : Nat) (pre : List (List Bytes))
+    (name t : Bytes) (maxSize : Nat) (ce : List Nat) (a : Bytes) (more : List Bytes)
+    (hpre : ∀ r ∈ pre, ∀ e ∈ r, EntOK e ∧ ∃ p, parseEnt e = some p ∧ IsOther p)
+    (hn : name ≠ []) (hlen : ∀ c ∈ slComps uni t, c.length ≤ 248) (hce : ∀ c ∈ ce, c < 2 ^ 32)
+    (h : assemble res bs fuel ((pre ++ [nmEntries name.length name, slEntries uni t]).map List.flatten) maxSize ce = some (a :: more))
+    (hl : ∀ x ∈ more, x.length < 2 ^ 32) (hrd : RdOK rd ce more) (hm : more.length ≤ maxAreas) :
+    ∃ ps, readSusp rd a = some ps ∧ getFilename ps = some name ∧ readLink ps = some (slRender (slItems uni t) []) :=
+  rr_record res uni bs rd fuel pre name t maxSize ce a more hpre hn hlen hce h hl hrd hm
+
+/-- the same for an entry that is no symlink: the name comes back, and it is not reported as a link -/
+theorem rr_record_name_roundtrip (res : Bool) (bs : Nat) (rd : Nat → Nat → Nat → Bytes) (fuel : Nat) (pre : List (List Bytes))
+    (name : Bytes) (maxSize : Nat) (ce : List Nat) (a : Bytes) (more : List Bytes)
+    (hpre : ∀ r ∈ pre, ∀ e ∈ r, EntOK e ∧ ∃ p, parseEnt e = some p ∧ IsOther p)
+    (hn : name ≠ []) (hce : ∀ c ∈ ce, c < 2 ^ 32)
+    (h : assemble res bs fuel ((pre ++ [nmEntries name.length name]).map List.flatten) maxSize ce = some (a :: more))
+    (hl : ∀ x ∈ more, x.length < 2 ^ 32) (hrd : RdOK rd ce more) (hm : more.length ≤ maxAreas) :
+    ∃ ps, readSusp rd a = some ps ∧ getFilename ps = some name ∧ readLink ps = none :=
+  rr_record_name res bs rd fuel pre name maxSize ce a more hpre hn hce h hl hrd hm
+
+/-- the hypotheses are satisfiable: a 20-byte PX-like entry, a name of 30 bytes, the target "../a"; 60 bytes of
+    room in the record, so the NM and SL entries go to the continuation area at block 50 -/
+example : ∃ ps, readSusp (fun loc _ _ => if loc = 50 then nmEntry false (List.replicate 30 120) ++ slBytes true [46, 46, 47, 97] else [])
+      (ext20 ++ ceEntry 50 0 45) = some ps ∧
+    getFilename ps = some (List.replicate 30 120) ∧ readLink ps = some [46, 46, 47, 97] :=
+  rr_record_roundtrip true true 2048 (fun loc _ _ => if loc = 50 then nmEntry false (List.replicate 30 120) ++ slBytes true [46, 46, 47, 97] else [])
+    10 [[ext20]] (List.replicate 30 120) [46, 46, 47, 97] 60 [50, 51] _ [nmEntry false (List.replicate 30 120) ++ slBytes true [46, 46, 47, 97]]
+    (by
+      intro r hr e he
+      simp only [List.mem_singleton] at hr; subst hr
+      simp only [List.mem_singleton] at he; subst he
+      exact ⟨by unfold EntOK; decide, .other [90, 90], by decide, trivial⟩)
+    (by decide) (by decide) (by decide) (by decide) (by decide) ⟨by decide, trivial⟩ (by decide)
+
+/-- **layout_pathtable_on_device**: the L and the M path table READ BACK FROM THE DEVICE after the writes
+    of `workspace_roundtrip` (any prior contents), at the locations and with the size the primary volume
+    descriptor names, decode (`parsePathTable`) to exactly the records of `layout_pathtable` — so every
+    lookup of that theorem is a lookup through the bytes on the image.  Further limits: fewer than 65535
+    directories (16-bit parent numbers) and no empty identifier (the Go code refuses names whose base
+    maps to the empty string). -/
+theorem layout_pathtable_on_device (w : WTree) (order : Nat → List Nm) (fin : Nat → Nat → Nm) (bs : Nat) (o : Order)
+    (sysId volId tail : Bytes) (d0 : Dev)
+    (hbs : 2048 ≤ bs) (hbs16 : bs < 2 ^ 16) (hok : w.OK o) (hr : w.Resolved order fin) (hpt : w.PtOK o.pt)
+    (hlim : w.total fin bs o * bs < 2 ^ 32) (hcount : o.pt.length + 1 < 2 ^ 16) (hne : ∀ d ∈ o.pt, w.ident fin d ≠ [])
+    (hs : sysId.length = 32) (hv : volId.length = 32) (ht : tail.length = 1858) :
+    decodePtTable false (o.pt.length + 1)
+        (readAt ((w.image fin bs o sysId volId tail).imageOn d0) ((w.image fin bs o sysId volId tail).pvd.ptL * bs)
+          (w.image fin bs o sysId volId tail).pvd.ptSize) = some (w.ptRecs fin (w.loc fin bs o) o.pt) ∧
+    decodePtTable true (o.pt.length + 1)
+        (readAt ((w.image fin bs o sysId volId tail).imageOn d0) ((w.image fin bs o sysId volId tail).pvd.ptM * bs)
+          (w.image fin bs o sysId volId tail).pvd.ptSize) = some (w.ptRecs fin (w.loc fin bs o) o.pt) :=
+  image_pathtables w order fin bs o sysId volId tail hbs hbs16 hok hr hpt hlim hcount hne hs hv ht d0
+
+/-! ## the supplementary (Joliet) volume descriptor -/
+
+/-- **svd_roundtrip**: the supplementary volume descriptor (`supplementaryVolumeDescriptor.toBytes`: the
+    layout of the primary descriptor with type 2, volume flags, and the escape sequences that announce
+    Joliet where the primary one has zeros) decodes from its 2048 bytes to the same fields: flags, escape
+    sequences, volume size, set/sequence numbers, block size, Joliet path table size and locations, the
+    Joliet root directory record (both-endian halves agreeing) -/
+theorem svd_roundtrip (s : SVD) (h : s.WF) : decodeSVD (encodeSVD s) = some s ∧ (encodeSVD s).length = 2048 :=
+  ⟨decode_encodeSVD s h, encodeSVD_length s h⟩
+
+private def exSVD : SVD :=
+  { flags := 0, esc := [37, 47, 69] ++ zeros 29, d := { imI.pvd with volSize := 30, ptL := 27, ptM := 28 } }
+example : decodeSVD (encodeSVD exSVD) = some exSVD ∧ isJolietEsc exSVD.esc = true :=
+  ⟨(svd_roundtrip exSVD ⟨by decide, by simp [PVD.WF, exSVD, imI, imT, PTree.selfRec, PTree.recOf, imDate]⟩).1, by decide⟩
 
 end Diskfs.Iso.C06
